@@ -64,6 +64,11 @@ Inductive case :=
       the observation also lists the distinct names that server was asked for *)
 | CBoot (a : uin) (bs : str) (ans : list N) (cert : san)
         (obs : option (list (dest * N) * list str * str * str * bool))
+  (** the plain udp upstream against servers that answer every UDP query
+      truncated (TC=1): [None] = creation refused, else the distinct
+      destinations of the UDP datagrams, the distinct destinations of the TCP
+      connections, and whether the exchange ended with the TCP answer *)
+| CTrunc (a : uin) (obs : option (list (dest * N) * list (dest * N) * bool))
   (** the code under test panicked on these input strings *)
 | CPanic (a b : str).
 
@@ -169,6 +174,19 @@ Definition agree (c : case) : bool :=
       | _, _ => false
       end
       && agree_upper t cert sni hh ok
+    | _, _ => false
+    end
+  | CTrunc a obs =>
+    negb (in_domain (uin_addr a)) ||
+    match new_upstream ip_literal (uin_addr a) (uin_dial a) false, obs with
+    | None, None => true
+    | Some t, Some (udps, tcps, ok) =>
+      (* one observed destination per dial site of the model, in its order *)
+      match dial_sites t, udps, tcps with
+      | [(NetUdp, h1, p1); (NetTcp, h2, p2)], [(d1, q1)], [(d2, q2)] =>
+        dest_matches d1 h1 && (q1 =? p1) && dest_matches d2 h2 && (q2 =? p2) && ok
+      | _, _, _ => false
+      end
     | _, _ => false
     end
   | CPanic _ _ => false
@@ -374,6 +392,29 @@ Definition spec (c : case) : bool :=
       | None, _ => true
       end
     end
+  | CTrunc a obs =>
+    match a with
+    | URaw _ _ => true
+    | UMean scheme e path dial eff_ip _ =>
+      match must_create scheme e path dial eff_ip false, obs with
+      | Some false, None => true
+      | Some true, Some (udps, tcps, ok) =>
+        match lookup_scheme scheme,
+              match dial with Some d => denotes false d 0 | None => denotes true e 0 end with
+        | Some (_, def), Some (Some (h, p)) =>
+          let want := if p =? 0 then def else p in
+          (* the TCP connection arrives where the UDP datagram went: the configured address *)
+          match udps, tcps with
+          | [(d1, q1)], [(d2, q2)] =>
+            dest_is d1 eff_ip h && (q1 =? want) && dest_is d2 eff_ip h && (q2 =? want) && ok
+          | _, _ => false
+          end
+        | _, _ => false
+        end
+      | Some _, _ => false
+      | None, _ => true
+      end
+    end
   | CPanic _ _ => false
   end.
 
@@ -388,7 +429,7 @@ Definition nontrivial (c : case) : bool :=
   | CSplit s _ | CRemove s _ => v6ish (inp_str s) || negb (has c_colon (inp_str s))
   | CParse u d _ _ =>
     negb (is_nil (inp_str d)) || v6ish (inp_str u) || negb (has c_colon (inp_str u))
-  | CNew a _ _ | CNet a _ _ _ | CNewB a _ _ _ | CBoot a _ _ _ _ =>
+  | CNew a _ _ | CNet a _ _ _ | CNewB a _ _ _ | CBoot a _ _ _ _ | CTrunc a _ =>
     in_domain (uin_addr a) &&
     (negb (is_nil (uin_dial a)) || v6ish (uin_addr a)
     || match a with UMean _ e _ _ _ _ => negb (is_some (ep_port e)) | _ => false end)
